@@ -921,20 +921,16 @@ func parseNumberLiteral(literal string) (value interface{}, err error) {
 	err = parseIntErr
 
 	if err.(*strconv.NumError).Err == strconv.ErrRange {
-		if len(literal) > 2 &&
-			literal[0] == '0' && (literal[1] == 'X' || literal[1] == 'x') &&
-			literal[len(literal)-1] != 'n' {
-			// Could just be a very large number (e.g. 0x8000000000000000)
-			var value float64
-			literal = literal[2:]
-			for _, chr := range literal {
-				digit := digitValue(chr)
-				if digit >= 16 {
-					goto error
+		if len(literal) > 2 && literal[0] == '0' && literal[len(literal)-1] != 'n' {
+			switch literal[1] {
+			case 'x', 'X', 'o', 'O', 'b', 'B':
+				// Could just be a very large number (e.g. 0x8000000000000000): round the exact value once
+				if bigInt, ok := new(big.Int).SetString(literal, 0); ok {
+					f, _ := new(big.Float).SetInt(bigInt).Float64()
+					return f, nil
 				}
-				value = value*16 + float64(digit)
+				goto error
 			}
-			return value, nil
 		}
 	}
 
